@@ -8,7 +8,7 @@
    [new_reader (finalize w) = Some r] : NewReader on the sections Finalize produced;  theorem 4 says
    that going through the byte image changes nothing ([finalize_reader]). *)
 From Coq Require Import NArith List Lia.
-Require Import Pk.IndexFormat Pk.IndexFormatCodec Pk.IndexFormatHosts Pk.IndexFormatWriter Pk.IndexFormatData Pk.IndexFormatRefuted.
+Require Import Pk.IndexFormat Pk.IndexFormatCodec Pk.IndexFormatHosts Pk.IndexFormatWriter Pk.IndexFormatData Pk.IndexFormatPackets Pk.IndexFormatRefuted.
 Import ListNotations.
 Open Scope N_scope.
 
@@ -68,6 +68,25 @@ Theorem C01_all_streams_enumerate : forall gcap L w r,
   new_reader (finalize w) = Some r ->
   map st_id (all_streams r) = ids_of L /\ (forall id, In id (ids_of L) -> r_min r <= id <= r_max r).
 Proof. intros gcap L w r H1 H2 H3 H4 H5. split; [exact (all_streams_ids gcap L w r H1 H2 H3 H4 H5)|exact (min_max_ids gcap L w r H1 H2 H3 H4 H5)]. Qed.
+
+(* ---------------- 2. source-packet references ---------------- *)
+(* wf_packets s: at least one packet, every packet has a source, no source is directly repeated, timestamps in
+   whole microseconds after the first packet do not decrease and consecutive gaps are below 2^32 us (streams of ANY
+   duration: the uint32 offset may wrap any number of times).  names_ok s: capture names contain no NUL byte.
+   expect_packets t0 ps: for every packet and every one of its sources (AllFromPacketMetadata order) the capture
+   name, the full 64-bit packet index, the direction, and the timestamp t0 + floor((ts - t0) / 1us) * 1us. *)
+Theorem C01_packets_of_stored_stream : forall gcap L w r,
+  16 < gcap <= 4 * P16 ->
+  Forall (fun ids => wf_meta (snd ids)) L -> Forall (fun ids => names_ok (snd ids)) L ->
+  add_streams gcap new_writer L = Some w ->
+  new_reader (finalize w) = Some r ->
+  lenN (w_packets w) < P32 ->
+  forall k id s rec, nth_error L k = Some (id, s) -> wf_packets s -> nth_error (all_streams r) k = Some rec ->
+  packets r rec = Some (expect_packets (first_ts s) (s_packets s)).
+Proof.
+  intros gcap L w r H1 H2 H3 H4 H5 H6.
+  exact (packets_stored gcap L w r H1 H2 H4 H5 (add_streams_names gcap L new_writer w (Forall_nil _) H3 H4) H6).
+Qed.
 
 (* ---------------- 3. payload per direction and direction runs ---------------- *)
 (* the segmentation varint: every size below 2^64 is read back, whatever follows *)
